@@ -1214,8 +1214,22 @@ def remove_duplicate_functions(source: str, preserve: Collection[str]) -> str:
     delete = set()
     renamings = {}
 
+    # A function is left alone if its definition or one of its uses is on a line with an ignore comment
+    ignored_names = {
+        node.id
+        for node in core.walk(root, ast.Name)
+        if core.has_ignore_comment(source, core.get_charnos(node, source))
+    }
+    for node_hash, funcdefs in function_defs.items():
+        function_defs[node_hash] = {
+            node
+            for node in funcdefs
+            if node.name not in ignored_names
+            and not core.has_ignore_comment(source, core.get_charnos(node, source))
+        }
+
     for funcdefs in function_defs.values():
-        if len(funcdefs) == 1:
+        if len(funcdefs) <= 1:
             continue
         logger.debug(", ".join(node.name for node in funcdefs) + " are equivalent")
         preserved_nodes = {node for node in funcdefs if node.name in preserve}
